@@ -1041,9 +1041,48 @@ func runB14(p *an.Prog, r *an.Result) {
 	name := an.FuncName(fn)
 	// decoration calls: invocations, inside a loop, of a module interface all of whose methods take a writer
 	var calls []*ssa.Call
+	helperMode := false
+	collect := func(fn *ssa.Function, needLoop bool) []*ssa.Call {
+		var calls []*ssa.Call
+		an.EachInstr(fn, func(in ssa.Instruction) {
+			c, ok := in.(*ssa.Call)
+			if !ok || !c.Call.IsInvoke() || needLoop && !reachesBlock(c.Block(), c.Block()) {
+				return
+			}
+			n := an.NamedOf(c.Call.Value.Type())
+			if n == nil || !an.IsModulePkg(n.Obj().Pkg()) {
+				return
+			}
+			it, ok := n.Underlying().(*types.Interface)
+			if !ok || it.NumMethods() < 2 {
+				return
+			}
+			for i := 0; i < it.NumMethods(); i++ {
+				sig := it.Method(i).Type().(*types.Signature)
+				if sig.Params().Len() == 0 || !isIOWriter(sig.Params().At(0).Type()) {
+					return
+				}
+			}
+			calls = append(calls, c)
+		})
+		return calls
+	}
+	if len(collect(fn, true)) < 2 {
+		// one iteration split off into a function of the package that the loop calls: that function is the iteration
+		an.EachInstr(fn, func(in ssa.Instruction) {
+			site, ok := in.(*ssa.Call)
+			if !ok || !reachesBlock(site.Block(), site.Block()) {
+				return
+			}
+			if h := site.Call.StaticCallee(); h != nil && h.Pkg == fn.Pkg && h.Blocks != nil && len(collect(h, false)) >= 2 && !helperMode {
+				fn, helperMode = h, true
+				name = an.FuncName(h)
+			}
+		})
+	}
 	an.EachInstr(fn, func(in ssa.Instruction) {
 		c, ok := in.(*ssa.Call)
-		if !ok || !c.Call.IsInvoke() || !reachesBlock(c.Block(), c.Block()) {
+		if !ok || !c.Call.IsInvoke() || !helperMode && !reachesBlock(c.Block(), c.Block()) {
 			return
 		}
 		n := an.NamedOf(c.Call.Value.Type())
@@ -1073,7 +1112,7 @@ func runB14(p *an.Prog, r *an.Result) {
 				continue
 			}
 			// the loop: blocks that can get back to the opening call
-			inLoop := func(b *ssa.BasicBlock) bool { return reachesBlock(b, open.Block()) }
+			inLoop := func(b *ssa.BasicBlock) bool { return helperMode || reachesBlock(b, open.Block()) }
 			bad := ""
 			var badPos token.Pos
 			seen := map[*ssa.BasicBlock]bool{}
